@@ -7,6 +7,7 @@ import (
 	"runtime"
 	"sync"
 	"testing"
+	"testing/synctest"
 	"time"
 
 	"nhooyr.io/websocket"
@@ -474,4 +475,76 @@ func TestC15Inbound(t *testing.T) {
 			rt.Fatalf("C15 inbound mode=%s closeRead=%v: %s", mode.Name, closeRead, fail)
 		}
 	})
+}
+
+// TestC15Stall: a data write of the library's own is held up by the transport while a
+// Ping arrives. If the hold-up is shorter than the library's control-frame timeout the
+// Pong goes out late; if it is longer the connection fails. What may not happen is that
+// the Ping is dropped silently while later Pings are answered: the Pongs on the wire are
+// always the answers to the first k Pings, in order.
+func TestC15Stall(t *testing.T) {
+	rec := evid.For("C15")
+	for _, client := range []bool{false, true} {
+		for _, closeRead := range []bool{false, true} {
+			for _, stall := range []time.Duration{3 * time.Second, 7 * time.Second, 20 * time.Second} {
+				desc := fmt.Sprintf("stall|client=%v|closeRead=%v|%v", client, closeRead, stall)
+				var msg string
+				synctest.Test(t, func(t *testing.T) {
+					e := newEnv(t)
+					defer e.Teardown()
+					lc, err := e.open(connSpec{Client: client})
+					if err != nil {
+						msg = "handshake: " + err.Error()
+						return
+					}
+					p := lc.Peer
+					p.start(e)
+					lc.End.SetInBudget(0)
+					e.Go(func() { lc.C.Write(context.Background(), websocket.MessageBinary, make([]byte, 9000)) })
+					synctest.Wait() // the write holds the frame lock, stuck in the transport
+					if closeRead {
+						lc.C.CloseRead(context.Background())
+					} else {
+						e.Go(func() {
+							for {
+								if _, _, err := lc.C.Read(context.Background()); err != nil {
+									return
+								}
+							}
+						})
+					}
+					pings := [][]byte{[]byte("ping A"), []byte("ping B"), []byte("ping C")}
+					p.send(ref.Frame{Fin: true, Opcode: ref.OpPing, Payload: pings[0]})
+					e.sleep(stall)
+					lc.End.SetInBudget(-1)
+					p.send(ref.Frame{Fin: true, Opcode: ref.OpPing, Payload: pings[1]})
+					e.sleep(time.Second)
+					p.send(ref.Frame{Fin: true, Opcode: ref.OpPing, Payload: pings[2]})
+					e.sleep(8 * time.Second)
+					lc.C.CloseNow()
+					p.waitEOF(30 * time.Second)
+					out, _ := p.snapshot()
+					var got [][]byte
+					for _, f := range out {
+						if f.Opcode == ref.OpPong {
+							got = append(got, f.Payload)
+						}
+					}
+					for i, g := range got {
+						if i >= len(pings) || !bytes.Equal(g, pings[i]) {
+							msg = fmt.Sprintf("Pong %d on the wire is %q: the Pongs are not the answers to the first Pings in order (all Pongs: %q) - a Ping was dropped silently", i, g, got)
+							return
+						}
+					}
+					if stall < 5*time.Second && len(got) != len(pings) {
+						msg = fmt.Sprintf("the write was held up for %v only, but %d of %d Pings were answered: %q", stall, len(got), len(pings), got)
+					}
+				})
+				rec.Case(true, desc, "ping-while-a-write-is-held-up")
+				if msg != "" {
+					failCase(t, "C15", desc, "%s", msg)
+				}
+			}
+		}
+	}
 }
